@@ -44,6 +44,8 @@ enum Step {
     BuildSimple { cfg: usize, input: usize },
     /// peek on the shared scanner, advance to the first peeked match, then scan the rest
     PeekShared { input: usize, n: usize },
+    /// build() of a configuration nobody has built before in this execution (a guaranteed miss)
+    BuildFresh { id: usize },
 }
 
 #[derive(Clone, Debug, Serialize, Deserialize, PartialEq, Eq)]
@@ -180,6 +182,15 @@ fn gen_workload(seed: u64, idx: u64) -> Workload {
             }
         }
     }
+    if !failing.iter().any(|f| f.len() >= 2) {
+        // a two-mode configuration whose SECOND mode fails to compile
+        let mut f = configs[0].clone();
+        f.truncate(1);
+        f.push(ModeSpec { name: "BAD".into(), patterns: vec![PatternSpec { pattern: "a*?".into(), token_type: 7, lookahead: None }], transitions: vec![] });
+        if matches!(try_uncached(&f), Some(Err(_))) {
+            failing.push(f);
+        }
+    }
     let refs: Vec<&gen::GenConfig> = gcs.iter().collect();
     let inputs: Vec<String> = (0..rng.range(1, 3)).map(|_| gen::gen_input(&mut rng, &al, &refs, (0, 16))).collect();
     let mut inputs = inputs;
@@ -187,7 +198,11 @@ fn gen_workload(seed: u64, idx: u64) -> Workload {
         inputs.push(format!("kb1 {}b kn39 {}b kz25", "a".repeat(40), "a".repeat(69)));
     }
     let shared_cfg = rng.below(configs.len());
-    let n_threads = rng.range(2, 4);
+    // workload flavours: ordinary / failing storm (many concurrent failing builds of multi-mode
+    // configurations) / miss storm under cache pressure
+    let flavour = rng.weighted(&[6, 1, 1]);
+    let n_threads = if flavour == 0 { rng.range(2, 4) } else { rng.range(3, 4) };
+    let mut fresh_id = 1000usize;
     let mut threads = Vec::new();
     for _ in 0..n_threads {
         let n_steps = rng.range(2, 5);
@@ -195,7 +210,12 @@ fn gen_workload(seed: u64, idx: u64) -> Workload {
         for _ in 0..n_steps {
             let input = rng.below(inputs.len());
             let cfg = rng.below(configs.len());
-            script.push(match rng.weighted(&[35, if failing.is_empty() { 0 } else { 12 }, 20, 10, 8, 8, 8, 6]) {
+            let weights: [usize; 9] = match flavour {
+                1 => [10, if failing.is_empty() { 0 } else { 70 }, 5, 0, 0, 0, 5, 0, 10],
+                2 => [25, if failing.is_empty() { 0 } else { 5 }, 5, 0, 0, 0, 5, 0, 60],
+                _ => [35, if failing.is_empty() { 0 } else { 12 }, 20, 10, 8, 8, 8, 6, 3],
+            };
+            script.push(match rng.weighted(&weights) {
                 0 => Step::BuildCached { cfg, input },
                 1 => Step::BuildFailing { cfg: rng.below(failing.len()) },
                 2 => Step::ScanShared { input },
@@ -203,12 +223,16 @@ fn gen_workload(seed: u64, idx: u64) -> Workload {
                 4 => Step::ScanPrivate { cfg, input },
                 5 => Step::ScanSharedMode { input, mode: rng.below(configs[shared_cfg].len()) },
                 6 => Step::BuildSimple { cfg, input },
-                _ => Step::PeekShared { input, n: rng.range(1, 3) },
+                7 => Step::PeekShared { input, n: rng.range(1, 3) },
+                _ => {
+                    fresh_id += 1;
+                    Step::BuildFresh { id: fresh_id }
+                }
             });
         }
         threads.push(script);
     }
-    let prefill = if rng.chance(1, 8) { *rng.pick(&[7usize, 31, 127, 129, 255]) } else { 0 };
+    let prefill = if flavour == 2 || rng.chance(1, 10) { *rng.pick(&[7usize, 31, 127, 129, 255]) } else { 0 };
     Workload { configs, failing, inputs, shared_cfg, threads, prefill }
 }
 
@@ -239,6 +263,7 @@ fn expected(w: &Workload) -> Vec<Vec<Res>> {
                         Err(e) => Res::Err(err_kind(&e)),
                     },
                     Step::PeekShared { input, n } => Res::Toks(peek_then_scan(&unc(&w.configs[w.shared_cfg]).unwrap(), &w.inputs[*input], *n)),
+                    Step::BuildFresh { id } => Res::Toks(scan(&unc(&trivial_config(*id)).unwrap(), "aaaaa aa", 0, None)),
                 })
                 .collect()
         })
@@ -270,6 +295,10 @@ fn exec_step(w: &Workload, shared: &Scanner, s: &Step) -> Res {
             }
         }
         Step::PeekShared { input, n } => Res::Toks(peek_then_scan(shared, &w.inputs[*input], *n)),
+        Step::BuildFresh { id } => match ScannerBuilder::new().add_scanner_modes(&to_modes(&trivial_config(*id))).build() {
+            Ok(sc) => Res::Toks(scan(&sc, "aaaaa aa", 0, None)),
+            Err(e) => Res::Err(err_kind(&e)),
+        },
     }
 }
 
@@ -335,7 +364,7 @@ fn scenario(w: Arc<Workload>, exp: Arc<Vec<Vec<Res>>>, widx: u64) {
                 order2.lock().unwrap().push((ti, si));
                 let before = scnr::verif::scanner_cache_len();
                 let r = exec_step(&w2, &shared2, s);
-                if matches!(s, Step::BuildCached { .. } | Step::BuildSimple { .. }) {
+                if matches!(s, Step::BuildCached { .. } | Step::BuildSimple { .. } | Step::BuildFresh { .. }) {
                     let after = scnr::verif::scanner_cache_len();
                     let mut hm = HITS_MISSES.lock().unwrap();
                     if after > before {
@@ -387,6 +416,8 @@ fn prepare(seed: u64, widx: u64) -> (Arc<Workload>, Arc<Vec<Vec<Res>>>) {
     let mut cfg = ShuttleConfig::new();
     cfg.failure_persistence = FailurePersistence::None;
     cfg.silence_warnings = true;
+    // sequential preparation: no bound on steps (a change may put instrumented atomics into scans)
+    cfg.max_steps = MaxSteps::None;
     Runner::new(RandomScheduler::new_from_seed(0, 1), cfg).run(move || {
         let w = gen_workload(seed, widx);
         let e = expected(&w);
@@ -401,7 +432,7 @@ fn run_one_scheduler(kind: &str, seed: u64, widx: u64, schedules: usize, w: &Arc
     std::fs::create_dir_all(dir).map_err(|e| e.to_string())?;
     let mut cfg = ShuttleConfig::new();
     cfg.failure_persistence = FailurePersistence::File(Some(dir.to_path_buf()));
-    cfg.max_steps = MaxSteps::FailAfter(200_000);
+    cfg.max_steps = MaxSteps::FailAfter(5_000_000);
     cfg.silence_warnings = true;
     let (w2, e2) = (w.clone(), exp.clone());
     let f = move || scenario(w2.clone(), e2.clone(), widx);
@@ -468,7 +499,8 @@ fn main() {
             let mut step_kinds: BTreeMap<String, u64> = BTreeMap::new();
             let mut workloads = 0u64;
             let mut pressure = 0u64;
-            for widx in from..to {
+            let stride = num("stride", 1).max(1);
+            for widx in (from..to).step_by(stride as usize) {
                 let (w, exp) = prepare(seed, widx);
                 workloads += 1;
                 if w.prefill > 0 {
@@ -486,6 +518,10 @@ fn main() {
                 }
                 for kind in ["random", "pct", "nondeterminism-check"] {
                     let n = if kind == "nondeterminism-check" { (schedules / 10).max(4) } else { schedules };
+                    // heavy workloads (big configurations, a pre-filled cache) cost tens of
+                    // milliseconds per execution: a quarter of the schedules
+                    let heavy = w.prefill >= 127 || w.configs.iter().any(|c| c[0].patterns.len() > 32);
+                    let n = if heavy { (n / 4).max(4) } else { n };
                     let dir = sched_dir.join(format!("w{}-{}", widx, kind));
                     if let Err(msg) = run_one_scheduler(kind, seed, widx, n, &w, &exp, &dir) {
                         let sf = dir.join("schedule000.txt");
@@ -536,6 +572,7 @@ fn main() {
             let mut c0 = ShuttleConfig::new();
             c0.failure_persistence = FailurePersistence::None;
             c0.silence_warnings = true;
+            c0.max_steps = MaxSteps::None;
             Runner::new(RandomScheduler::new_from_seed(0, 1), c0).run(move || {
                 *s2.lock().unwrap() = Some(expected(&wl2));
             });
